@@ -45,14 +45,16 @@ impl BtreeBitmap {
 
 /// Shape of the bitmap that `BtreeBitmap::new_padded(n, n, cap)` builds, written down
 /// independently of it: number of levels, and (len, words) of level `l` (0 = root).
-/// Supports up to three levels (cap <= 64^3).
+/// Supports up to four levels (cap <= 64^4, i.e. every u32 capacity redb uses).
 pub(crate) const fn shape_height(cap: u32) -> usize {
     if cap <= 64 {
         1
     } else if cap <= 4096 {
         2
-    } else {
+    } else if cap <= 262_144 {
         3
+    } else {
+        4
     }
 }
 
@@ -125,10 +127,17 @@ pub(crate) fn mk_padded(n: u32, cap: u32, leaf: &[u64; 3]) -> BtreeBitmap {
     if h == 2 {
         return BtreeBitmap::verif_raw(alloc::vec![mid, leaf_bm]);
     }
-    let len0 = shape_len(n, cap, 0);
+    // levels above: one bit (n <= 192 means at most one word below)
+    let len0 = shape_len(n, cap, h - 3);
     let x0 = if x1 != u64::MAX { u64::MAX << 1 } else { u64::MAX };
-    let root = U64GroupedBitmap::verif_raw(len0, lit_words(if len0 > 0 { 1 } else { 0 }, x0, 0, 0));
-    BtreeBitmap::verif_raw(alloc::vec![root, mid, leaf_bm])
+    let up = U64GroupedBitmap::verif_raw(len0, lit_words(if len0 > 0 { 1 } else { 0 }, x0, 0, 0));
+    if h == 3 {
+        return BtreeBitmap::verif_raw(alloc::vec![up, mid, leaf_bm]);
+    }
+    let len00 = shape_len(n, cap, 0);
+    let x00 = if x0 != u64::MAX { u64::MAX << 1 } else { u64::MAX };
+    let root = U64GroupedBitmap::verif_raw(len00, lit_words(if len00 > 0 { 1 } else { 0 }, x00, 0, 0));
+    BtreeBitmap::verif_raw(alloc::vec![root, up, mid, leaf_bm])
 }
 
 /// The summary invariant of a bitmap, evaluated on raw words: every level has the expected
